@@ -1033,7 +1033,9 @@ type condRes struct {
 	nilT, nilF map[types.Object]nilness
 }
 
-func swapCond(r condRes) condRes { return condRes{pre: r.pre, t: r.f, f: r.t, nilT: r.nilF, nilF: r.nilT} }
+func swapCond(r condRes) condRes {
+	return condRes{pre: r.pre, t: r.f, f: r.t, nilT: r.nilF, nilF: r.nilT}
+}
 
 func boolRefin(vi *varInfo) (refin, refin) {
 	if vi.pol == polBoolFalse {
